@@ -129,6 +129,36 @@ Section Sound.
     rewrite E, ev_pconst. apply (morph1 Rphi).
   Qed.
 
+  (* ---- nodal duality with formal parameters: for EVERY value of the parameters ---- *)
+  Definition duality_param_spec (e : elem) : Prop :=
+    length (e_doflocs e) = nbfun e /\
+    (exists j x, (j < nbfun e)%nat /\ nth j (e_doflocs e) None = Some x) /\
+    forall j x, (j < nbfun e)%nat -> nth j (e_doflocs e) None = Some x ->
+      forall i, (i < nbfun e)%nat -> forall pt : nat -> R,
+        pev (nthp (values e) i) (fun k => if Nat.ltb k (e_dim e) then phi (nth k x 0%Q) else pt k) == phi (delta i j).
+
+  Theorem duality_param_ok_sound e : duality_param_ok e = true -> duality_param_spec e.
+  Proof.
+    unfold duality_param_ok. intros H.
+    apply andb_true_iff in H. destruct H as [H Hd].
+    apply andb_true_iff in H. destruct H as [H Hne].
+    apply andb_true_iff in H. destruct H as [_ Hl]. apply Nat.eqb_eq in Hl.
+    split; [exact Hl|]. split.
+    - destruct (located (e_doflocs e) (nbfun e)) as [|j l] eqn:E; [discriminate|].
+      assert (Hj : In j (located (e_doflocs e) (nbfun e))) by (rewrite E; now left).
+      unfold located in Hj. apply filter_In in Hj. destruct Hj as [Hs Hx]. apply in_seq in Hs.
+      destruct (nth j (e_doflocs e) None) as [x|] eqn:Ex; [|discriminate].
+      exists j, x. split; [lia | exact Ex].
+    - intros j x Hj Hx i Hi pt.
+      pose proof (forallb_seq _ _ Hd j Hj) as Hjx. cbv beta in Hjx. rewrite Hx in Hjx.
+      pose proof (forallb_seq _ _ Hjx i Hi) as E. cbv beta in E.
+      pose proof (peqb_s _ _ E pt) as E2. rewrite ev_psubst, ev_pconst in E2. rewrite <- E2.
+      apply (peval_ext R rO rI radd rmul ropp req phi Rsth Reqe). intros k. unfold at_coords.
+      destruct (Nat.ltb k (e_dim e)).
+      + symmetry. apply ev_pconst.
+      + symmetry. apply (peval_pvar R rO rI radd rmul rsub ropp req phi Rsth Reqe Rth Rphi).
+  Qed.
+
   (* ---- traces of vector fields ---- *)
   Definition rdot (v : list poly) (c : list Q) (pt : nat -> R) : R :=
     fold_right (fun vc acc => phi (snd vc) * pev (fst vc) pt + acc) rO (combine v c).
@@ -248,4 +278,33 @@ Proof.
   pose proof (forallb_seq _ _ (forallb_seq _ _ Hf i Hi) j Hj) as E. cbv beta in E.
   unfold optq_eqb in E. destruct (dual_entry cube n _ _) as [q|]; [|discriminate].
   exists q. split; [reflexivity | now apply Qeq_bool_eq].
+Qed.
+
+(* ---- the defining functionals of the global family agree with their names, layout and doflocs ---- *)
+Lemma qs_eqb_sound a : forall b, qs_eqb a b = true -> Forall2 Qeq a b.
+Proof.
+  induction a as [|x a IH]; intros [|y b] H; simpl in H; try discriminate; constructor.
+  - apply andb_true_iff in H. now apply Qeq_bool_eq.
+  - apply andb_true_iff in H. now apply IH.
+Qed.
+
+Definition gdof_spec (g : gelem) : Prop :=
+  g_got g <> [] /\
+  Forall2 (fun a b : gdof_entry => fst a = fst b /\ Forall2 Qeq (snd a) (snd b)) (g_got g) (g_want g) /\
+  Forall2 (fun (w : gdof_entry) x => Forall2 Qeq (comb_point (g_dim g) (g_refp g) (snd w)) x) (g_want g) (g_doflocs g).
+
+Theorem gdof_ok_sound g : gdof_ok g = true -> gdof_spec g.
+Proof.
+  unfold gdof_ok. intros H. apply andb_true_iff in H. destruct H as [H Hl].
+  apply andb_true_iff in H. destruct H as [Hne He]. split; [|split].
+  - destruct (g_got g); [discriminate | discriminate].
+  - clear Hne Hl. revert He. generalize (g_got g) (g_want g). intros a.
+    induction a as [|x a IH]; intros [|y b] H; simpl in H; try discriminate; constructor.
+    + apply andb_true_iff in H. destruct H as [H _]. unfold gdof_eqb in H. apply andb_true_iff in H. destruct H as [H1 H2].
+      split; [now apply String.eqb_eq | now apply qs_eqb_sound].
+    + apply andb_true_iff in H. now apply IH.
+  - clear Hne He. revert Hl. generalize (g_want g) (g_doflocs g). intros a.
+    induction a as [|x a IH]; intros [|y b] H; simpl in H; try discriminate; constructor.
+    + apply andb_true_iff in H. destruct H as [H _]. now apply qs_eqb_sound.
+    + apply andb_true_iff in H. now apply IH.
 Qed.
